@@ -107,6 +107,7 @@ TCopyBehaviour ==
 TMustReject ==
   /\ IsEvent("must_reject")
   /\ Chk("cyclic_or_duplicate_named_graph_is_rejected", Ev.got = Ev.expect)
+  /\ Chk("rejected_build_leaves_the_users_variables_unchanged", ("unchanged" \in DOMAIN Ev) => Ev.unchanged)
   /\ UNCHANGED bvars /\ Step
 
 TNext == TPlanBuilt \/ TCopyBehaviour \/ TMustReject \/ TAdd \/ TAddAgain \/ TBuild \/ TBuildEmpty \/ TMutate \/ TPop \/ TDrop \/ TCopy \/ TAssign
